@@ -92,6 +92,20 @@ def rw_rename(root: File, rng: random.Random, pool: NamePool) -> Optional[str]:
     if not cands:
         return None
     kind, d = rng.choice(cands)
+    if kind in ("Message", "Enum") and isinstance(d.parent, Message) and rng.random() < 0.5:
+        # rename a nested definition to the name of a definition of an enclosing scope: legal shadowing.  The printer
+        # then has to spell every reference so that it still denotes the same definition (or the rewrite is dropped).
+        g = file_of(d)
+        outer = [x.name for x in g.items if isinstance(x, (Message, Enum, Alias)) and x is not d]
+        p = d.parent
+        while isinstance(p, Message):
+            outer += [x.name for x in p.items if isinstance(x, (Message, Enum)) and x is not d]
+            p = p.parent
+        taken = {x.name for x in d.parent.items if hasattr(x, "name")}
+        outer = [n for n in outer if n not in taken]
+        if outer:
+            old, d.name = d.name, rng.choice(outer)
+            return f"rename nested {kind} {old} to the shadowing name {d.name}"
     if kind in ("Message", "Enum", "Alias"):
         old, d.name = d.name, pool.pascal()
     elif kind == "Const":
